@@ -57,7 +57,7 @@ class ClientRoles:
             ctx.violation("A5", f, "socket-method-kept:%s" % a.attr, "%s keeps the bound method %s: after STARTTLS replaces the socket it still "
                           "reads / writes the plain connection" % (f.qualname, norm(a)), node=a,
                           witness="connect(starttls=True): AUTHENTICATE with the credentials is written in clear on the TCP socket after the handshake")
-        self.sender = self._one(self.send_sites, rule, "command sender (method calling sendall)")
+        self._rule = rule
         # readers: the block reader passes one of its parameters to recv; the
         # line reader searches the CRLF delimiter.  Other recv callers fill no
         # role (ownership rule M1 reports them).
@@ -95,6 +95,21 @@ class ClientRoles:
             self.assembler = m[cands[0]]
         if self.assembler is None:
             raise AnalysisError(rule, "cannot identify the response assembler (caller of both readers)")
+        # command sender: writes to the socket (itself or through private helpers) and then reads the reply through the assembler
+        readers = (self.line_reader.name, self.block_reader.name, self.assembler.name)
+        cands = []
+        for n in m:
+            if n in readers or self.assembler.name not in self.graph.edges[n]:
+                continue
+            reach = self.graph.reach_from([n])
+            direct = n in self.send_sites
+            via = [x for x in reach if x in self.send_sites and x != n and x.startswith("_")]
+            if direct or via:
+                cands.append((0 if direct else 1, -len(self.send_sites.get(n, [])), n))
+        if cands:
+            self.sender = m[sorted(cands)[0][2]]
+        else:
+            self.sender = self._one(self.send_sites, rule, "command sender (method calling sendall)")
         # buffer attribute: self attribute accumulated from recv in the line reader
         self.buffer_attr = self._buffer_attr(rule)
         # guard decorator
